@@ -77,6 +77,10 @@ def configs(p, rng):
     if p["trainer"] in ("csvm", "csvmw"):
         for shrink in (0, 1):
             out.append({"shrink": shrink, "prec": 1 - shrink, "cachesize": 0x4000000, "warm": 2, "ctype": "d"})
+    # warm = 3: restart from the solution of the same problem (same C, same accuracy): nothing is truncated, the start point
+    # must be the old solution bit for bit (commit 73617c7d rebalances only after a truncation)
+    if p["trainer"] in CS:
+        out.append({"shrink": 1, "prec": 1, "cachesize": 100000, "warm": 3, "ctype": "d"})
     return out
 
 def case_line(p, c, cid):
